@@ -1,4 +1,4 @@
 SPECIFICATION Spec
-CONSTANTS Peers = {s1, s2}  Probe = probe  LogInAcceptLoop = FALSE  HeadFromWaitStart = FALSE  NoMitmWaitLimit = FALSE
+CONSTANTS Peers = {s1}  Probe = probe  LogInAcceptLoop = FALSE  HeadFromWaitStart = FALSE  NoMitmWaitLimit = TRUE
 INVARIANTS NotClosedBefore SlowOriginNeverCloses ClosedAtLimit LoopNeverBlocks ProbeNotClosed
 CHECK_DEADLOCK FALSE
